@@ -79,3 +79,8 @@ def run(P, C, engines):
         fs = {f.name: f for f in P.functions.values() if f.unit == "selftest-cpp" and f.name.startswith("st_pr1")}
         C.selftest("PR-1", bool(_dp.narrowings(fs["st_pr1_narrow"])) and not _dp.narrowings(fs["st_pr1_clean"]),
                    "float accumulator in a double instantiation flagged, widening of a stored float silent")
+    if "re1" in engines:
+        from .rules import dp as _dp
+        fs = {f.name: f for f in P.functions.values() if f.unit == "selftest-cpp" and f.name.startswith("st_re1")}
+        C.selftest("RE-1", bool(_dp.hidden_state(fs["st_re1_static"])) and not _dp.hidden_state(fs["st_re1_clean"]),
+                   "scratch vector in a static local flagged, static const silent")
